@@ -26,14 +26,19 @@ LEVEL_TEXT = ('The round trip decode(encode m) = m, bit-for-bit conformance of e
               'order stream and 12-bit pair stream for every length, pack_len, the reaction framing and the half-float '
               'conversion are universally quantified Lean theorems about the executable model that the driver runs; the '
               'model is tied to today\'s source by regenerated tables and by byte-exact differential testing against the real '
-              'pack/unpack on limit-reaching molecules and all published packs. Proof is the right level because the format '
-              'is pure bit arithmetic over a finite record layout.')
+              'pack/unpack on limit-reaching molecules and all published packs. Since round 5 the cumulene / cis-trans perception '
+              'that pack and unpack read is inside the model (packFull / unpackFull take nothing from chython): it is proved total '
+              'on well-formed graphs, its output is proved to be chains of cumulated double bonds in the sense of a chemistry spec, '
+              'and the cis/trans label round trip is a theorem with hypotheses on the molecule only (format limits, marks on '
+              'perceived stereogenic bonds, no hypervalent centre inside a chain; the complement is a known finding with a Lean '
+              'witness). Proof is the right level because the format is pure bit arithmetic over a finite record layout and the '
+              'perception is pure graph logic.')
 LEVEL_NOTE = ('Lean kernel; the model is a hand transcription of the two .pyx files validated by correspondence; the real '
               'side runs the pyx2py rendering (no Cython in the sandbox: compiled-C behaviour such as uninitialised reads is '
               'outside); zlib trusted. The stereo perception the format relies on (`cumulenes`, `stereogenic_cumulenes`, '
               '`_stereo_cis_trans_terminals/_centers`) is inside the model since round 5 (`packFull`/`unpackFull`), compared '
               'verbatim with the real cached properties and proved total on well-formed graphs (`perception_total`).')
-TECHNIQUE = 'Lean 4 executable model + induction / kernel-evaluated bit lemmas + byte-exact differential testing'
+TECHNIQUE = 'Lean 4 executable model + induction / loop invariants / kernel-evaluated bit lemmas + byte-exact and dict-exact differential testing'
 RULE = ('structured molecules built to hit each format limit (atom numbers 1..4095, degree 0..15, every bond-count residue mod 8, '
         'every element x every tabulated isotope, charge -4..4, H None/0..6, atom/allene/cis-trans stereo, half-range and '
         'arbitrary double coordinates), chains of 1..7 cumulated double bonds with every end pattern (substituted, H only, explicit H, '
